@@ -58,24 +58,42 @@ theorem C05_nested_result_classes (st : Bool) (bs : Option Nat) (ps : List Param
 
 /-! ### the compositional tier (`Described`, `Pair.fits`) -/
 
-/-- **`Described` tier.**  A request/response whose first parameters `pre` are described parameters (`Described`: leaves,
-    structures, STATIC- / DYNAMIC-LENGTH- / END-OF-PDU-FIELDs, multiplexers, nested arbitrarily) that the message carries
+/-- **Compositional tier.**  A request/response whose first parameters `pre` are components (`Comp` with the decoder half of
+    `Comp.Ok`: `Described` and `Described2` parameters — leaves, structures with and without BYTE-SIZE, STATIC- / DYNAMIC-LENGTH- /
+    END-OF-PDU- / DYNAMIC-ENDMARKER-FIELDs, multiplexers, LENGTH-KEY users …, nested arbitrarily) that the message carries
     (`fits`: every object of `pre` lies inside the message, counts and switch keys are the ones of `pre`), followed by any
     parameters `rest`: if decoding `rest` — from where `pre` ends — has to read an object that is cut off, `decode` raises
-    `DecodeError`.  (`decode_eq` of the described components discharges the "what lies in front decodes" premises of `Reads`.) -/
-theorem C05_truncated_rejected_described (pre : List Comp) (hd : ∀ g ∈ pre, Described g) (rest : List Param) (msg : Bytes)
+    `DecodeError`.  (`decode_eq` of the components discharges the "what lies in front decodes" premises of `Reads`.) -/
+theorem C05_truncated_rejected_comps (pre : List Comp) (hd : ∀ g ∈ pre, g.DecOk) (rest : List Param) (msg : Bytes)
     (hlen : pre.length + 2 ≤ modelFuel) (hneed : ∀ g ∈ pre, g.need + pre.length + 2 ≤ modelFuel)
     (hfit : (Comps.pair pre).fits { msg := msg }) (hpre : Comps.decPre pre { msg := msg }) (dr : DecState) (bl : Nat)
     (hr : Reads true (modelFuel - 2 - pre.length) (.params rest) ((Comps.pair pre).dec { msg := msg }).2 dr bl)
     (hshort : msg.length < dr.readEnd bl) :
     decodeMessage none (Comps.toParams pre ++ rest) msg true = .error .decode := by
-  have hok := Comps.okAll_of_forall pre (fun g hg => (hd g hg).ok.1)
-  have h1 := Comps.reads_prefix pre hok (modelFuel - 2 - pre.length) (fun g hg => by have := hneed g hg; omega) { msg := msg } rfl
+  have h1 := Comps.reads_prefix pre hd (modelFuel - 2 - pre.length) (fun g hg => by have := hneed g hg; omega) { msg := msg } rfl
     hfit hpre rest dr bl hr
   have hf : modelFuel - 2 - pre.length + pre.length = modelFuel - 2 := by omega
   rw [hf] at h1
   refine C05_truncated_rejected_nested true none _ msg dr.cursorByte (dr.readEnd bl) ⟨dr, bl, ?_, rfl, rfl⟩ hshort
   exact Reads.struct (modelFuel - 1) none _ _ dr bl (Reads.composite (modelFuel - 2) _ _ dr bl h1)
+
+/-- the `Described` tier (`Proofs/CompDescribed.lean`) -/
+theorem C05_truncated_rejected_described (pre : List Comp) (hd : ∀ g ∈ pre, Described g) (rest : List Param) (msg : Bytes)
+    (hlen : pre.length + 2 ≤ modelFuel) (hneed : ∀ g ∈ pre, g.need + pre.length + 2 ≤ modelFuel)
+    (hfit : (Comps.pair pre).fits { msg := msg }) (hpre : Comps.decPre pre { msg := msg }) (dr : DecState) (bl : Nat)
+    (hr : Reads true (modelFuel - 2 - pre.length) (.params rest) ((Comps.pair pre).dec { msg := msg }).2 dr bl)
+    (hshort : msg.length < dr.readEnd bl) :
+    decodeMessage none (Comps.toParams pre ++ rest) msg true = .error .decode :=
+  C05_truncated_rejected_comps pre (fun g hg => (hd g hg).decOk) rest msg hlen hneed hfit hpre dr bl hr hshort
+
+/-- the `Described2` tier (`Proofs/CompExtDescribed.lean`) -/
+theorem C05_truncated_rejected_described2 (pre : List Comp) (mid : Bool) (hd : ∀ g ∈ pre, Described2 g mid) (rest : List Param)
+    (msg : Bytes) (hlen : pre.length + 2 ≤ modelFuel) (hneed : ∀ g ∈ pre, g.need + pre.length + 2 ≤ modelFuel)
+    (hfit : (Comps.pair pre).fits { msg := msg }) (hpre : Comps.decPre pre { msg := msg }) (dr : DecState) (bl : Nat)
+    (hr : Reads true (modelFuel - 2 - pre.length) (.params rest) ((Comps.pair pre).dec { msg := msg }).2 dr bl)
+    (hshort : msg.length < dr.readEnd bl) :
+    decodeMessage none (Comps.toParams pre ++ rest) msg true = .error .decode :=
+  C05_truncated_rejected_comps pre (fun g hg => (hd g hg).decOk) rest msg hlen hneed hfit hpre dr bl hr hshort
 
 /-- … in particular a leaf (VALUE parameter over a standard-length object `o`) behind the described prefix whose bytes —
     at the position the decoder reaches it — do not all lie inside the message -/
